@@ -815,6 +815,10 @@ def book_models(run, negs=("edns", "cache", "recompute", "optttl")):
         negs = ("edns", "cache", "iterunc", "delopt", "skip", "recompute", "optttl", "optname", "insertorder")
     for n in negs:
         run.negative_control("MC_Book", "MC_Book_neg_%s.cfg" % n)
+    # byte-level transcription of resize_rr / set_raw_name / delete / insert_rr: bytes, view and cursor after every
+    # operation at every record position of the Gen_S1 packets (pointer-free layout)
+    run.model("MC_MutateImpl", "MC_MutateImpl.cfg" if quick(run) else "MC_MutateImpl_thorough.cfg", timeout=7200)
+    run.negative_control("MC_MutateImpl", "MC_MutateImpl_neg.cfg")
 
 
 @check("HIST")
